@@ -642,7 +642,25 @@ func runCheck(c *checkCfg) int {
 	writeEvidence(c, b, a, nviol, time.Since(start).Seconds(), buildS)
 	fmt.Printf("%s %s: %d runs, %d steps, %.0f simulated s, %d distinct non-trivial histories, %d abstract states, stuck=%d budget-hit=%d, wall %.1fs (build %.1fs), violations=%d\n",
 		c.prop, c.tier, a.runs, a.steps, float64(a.simMs)/1000, len(a.nonTrivial), len(a.states), a.stuck, a.budgetHit, time.Since(start).Seconds(), buildS, nviol)
+	if exit == 0 && a.runs >= 1000 && len(a.nonTrivial) == 0 {
+		// nothing was decided: not one run reached the situation the property is about (on the
+		// unchanged tree every profile reaches it in almost every run). That is neither "held"
+		// nor a violation of the statement: say so instead of passing silently.
+		fmt.Fprintf(os.Stderr, "vsim: inconclusive (exit 2): none of the %d runs was non-trivial for %s (%s)\n", a.runs, c.prop, nonTrivialRule(a.rule))
+		return 2
+	}
 	return exit
+}
+
+func nonTrivialRule(rule string) string {
+	if i := strings.Index(rule, "non-trivial = "); i >= 0 {
+		r := rule[i:]
+		if j := strings.Index(r, ";"); j > 0 {
+			r = r[:j]
+		}
+		return r
+	}
+	return "see the rule in the evidence file"
 }
 
 // isolateCrash re-runs the runs of a chunk whose worker died one per process until the
